@@ -77,6 +77,7 @@ BFS_SEEDS = [
 
 
 LEX_FAILS = []
+SCALE = None      # Workspace.ScaleCases as printed by the last Workspace run
 
 
 def lex(text):
@@ -172,6 +173,9 @@ def damaged_workspaces(out, tier, seed):
     vlib.require_ok(r, "Workspace damage")
     out.add_tlc(r, "GEN Workspace single-step damage (BFS)")
     ws = list(r.cases())
+    global SCALE
+    sc = list(r.cases("SCALE"))
+    SCALE = sc[0] if sc else None
     hs = histories(out, tier, seed, allseeds, n=(40 if tier == "quick" else 1500))
     multi = []
     for h in hs:
